@@ -52,6 +52,14 @@ func optionList(mask int, lg fit.Logger, perm uint64) []fit.DecodeOption {
 			sel = append([]fit.DecodeOption{mk(dup - 1)}, sel...)
 		}
 	}
+	// a nil logger ("no logging", e.g. a logger variable that was never set) somewhere in the
+	// list: last (it then wins over an earlier logger), first, or on its own
+	switch perm / 240 % 4 {
+	case 1:
+		sel = append(sel, fit.WithLogger(nil))
+	case 2:
+		sel = append([]fit.DecodeOption{fit.WithLogger(nil)}, sel...)
+	}
 	return sel
 }
 
